@@ -54,3 +54,67 @@ Proof.
   - destruct Hiff as [_ Hiff]. specialize (Hiff eq_refl). discriminate.
   - right. exists e1, l1, e2, l2. auto.
 Qed.
+
+(** ** NewTypeInfo does not touch positions: the hypothesis can be stated on the document as parsed *)
+Definition set_positions (ss : selset) : list pos := map sel_pos (filter is_fieldb (ss_sels ss)).
+Definition field_positions (A : document) : list pos := flat_map set_positions (all_subs A).
+
+Lemma map_flat_map' {X Y Z} (f : Y -> Z) (g : X -> list Y) l : map f (flat_map g l) = flat_map (fun x => map f (g x)) l.
+Proof. induction l as [|x l IH]; [reflexivity |]. simpl. rewrite map_app, IH. reflexivity. Qed.
+Lemma occs_positions A : map (fun x : fp => sel_pos (fst3 x)) (occs A) = field_positions A.
+Proof.
+  unfold occs, field_positions. etransitivity; [apply map_flat_map' |]. apply flat_map_ext. intros [a sels p].
+  unfold set_positions. cbn [ss_sels]. etransitivity; [apply map_map |]. reflexivity.
+Qed.
+
+Section Positions.
+  Variable qo : bool.
+  Variable S : schema.
+  Variable F : features.
+
+  Lemma pti_sel_pos top s : sel_pos (pti_sel qo S F top s) = sel_pos s /\ is_fieldb (pti_sel qo S F top s) = is_fieldb s.
+  Proof. destruct s as [a [[al ap]|] n np args dirs sub | |]; split; reflexivity. Qed.
+
+  Lemma set_positions_pti top a sels p :
+    set_positions (SelSet top (map (pti_sel qo S F top) sels) p) = set_positions (SelSet a sels p).
+  Proof.
+    unfold set_positions. simpl. induction sels as [|s l IH]; [reflexivity |]. simpl.
+    destruct (pti_sel_pos top s) as [H1 H2]. rewrite H2. destruct (is_fieldb s); simpl; [rewrite H1, IH; reflexivity | exact IH].
+  Qed.
+
+  Lemma subs_positions_pti :
+    (forall s top, flat_map set_positions (subs_sel (pti_sel qo S F top s)) = flat_map set_positions (subs_sel s)) /\
+    (forall ss top, flat_map set_positions (subs_ss (pti_ss qo S F top ss)) = flat_map set_positions (subs_ss ss)).
+  Proof.
+    apply AstInd.sel_ss_ind.
+    - intros a al n np args dirs sub IH top. rewrite (Enumerate.pti_sel_field_eq qo S F top a al n np args dirs sub). destruct sub as [ss|]; [apply (IH ss eq_refl) | reflexivity].
+    - reflexivity.
+    - intros cond dirs sub e IH top. rewrite (Enumerate.pti_sel_inline_eq qo S F top cond dirs sub e). apply IH.
+    - intros a sels p IH top. rewrite pti_ss_eq, !subs_ss_eq. cbn [flat_map]. rewrite (set_positions_pti top a sels p). f_equal.
+      induction IH as [|s l Hs _ IHl]; [reflexivity |]. cbn [map flat_map]. rewrite !flat_map_app, Hs, IHl. reflexivity.
+  Qed.
+
+  Lemma field_positions_pti D : field_positions (pti_doc qo S F D) = field_positions D.
+  Proof.
+    unfold field_positions, all_subs, pti_doc. induction D as [|d l IH]; [reflexivity |]. cbn [map flat_map]. rewrite !flat_map_app, IH. f_equal.
+    rewrite Enumerate.pti_def_sub. apply (proj2 subs_positions_pti).
+  Qed.
+End Positions.
+
+(** the positions of the field selections written in [D] are pairwise distinct; for a document
+    obtained from the parser this follows from C06_parse_pos_injective, since the position of a field
+    selection is the position of one of its nodes *)
+Definition doc_field_positions_distinct (D : document) : Prop := NoDup (field_positions D).
+
+Lemma field_positions_distinct_pti qo S F D :
+  field_positions_distinct (pti_doc qo S F D) <-> doc_field_positions_distinct D.
+Proof. unfold field_positions_distinct, doc_field_positions_distinct. rewrite occs_positions, field_positions_pti. tauto. Qed.
+
+Theorem validate_memo_iff_parsed pi S F D :
+  order_ok pi -> doc_field_positions_distinct D ->
+  (validate_model_memo repaired pi S F D = Done [] <-> validate_model repaired pi S F D = Done []).
+Proof. intros Hpi H. apply validate_memo_iff; [exact Hpi | apply field_positions_distinct_pti; exact H]. Qed.
+Theorem validate_memo_accept_order_parsed pi1 pi2 S F D :
+  order_ok pi1 -> order_ok pi2 -> doc_field_positions_distinct D ->
+  (validate_model_memo repaired pi1 S F D = Done [] <-> validate_model_memo repaired pi2 S F D = Done []).
+Proof. intros H1 H2 H. apply validate_memo_accept_order; [exact H1 | exact H2 | apply field_positions_distinct_pti; exact H]. Qed.
